@@ -6,8 +6,8 @@ Import ListNotations.
 Open Scope string_scope.
 Open Scope Z_scope.
 
-(* printed with a leading sign: -5, -Inf, +Inf *)
-Definition signed (n : num) : bool := n_neg n || match n_mag n with MInf => true | _ => false end.
+(* printed with a leading sign: -5, -Inf *)
+Definition signed (n : num) : bool := n_neg n.
 (* the lowest precedence context in which the tree can stand without parentheses *)
 Definition lvl (e : expr) : nat := match e with EBin o _ _ _ _ => prec o | _ => 8%nat end.
 (* operators of precedence >= cap e that follow the text of e are swallowed by e's right-most operand *)
